@@ -32,15 +32,18 @@ def tagsUnique : List Nat → Bool
   | t :: rest => !rest.contains t && tagsUnique rest
 
 /-- walk the events: `open_` = heads not yet continued (wire order), `owed` = commands a "+" was
-    addressed to and that have not resumed. A resumption of a command nobody addressed means the
-    continuation request went to the wrong command. -/
-def contOk : List Ev → List Nat → List Nat → Bool
-  | [], _, _ => true
-  | .head c :: es, open_, owed => contOk es (open_ ++ [c]) owed
-  | .cont :: es, [], owed => contOk es [] owed             -- unsolicited "+": nobody is owed
-  | .cont :: es, c :: open_, owed => contOk es open_ (owed ++ [c])
-  | .resumed c :: es, open_, owed => owed.contains c && contOk es open_ (owed.erase c)
-  | .answered c :: es, open_, owed => contOk es (open_.erase c) owed
+    addressed to and that have not resumed, `ans` = commands the server has answered (a literal
+    header a client still sends for one of those is no longer a request for continuation). A
+    resumption of a command nobody addressed means the continuation request went to the wrong
+    command. -/
+def contOk : List Ev → List Nat → List Nat → List Nat → Bool
+  | [], _, _, _ => true
+  | .head c :: es, open_, owed, ans =>
+    if ans.contains c then contOk es open_ owed ans else contOk es (open_ ++ [c]) owed ans
+  | .cont :: es, [], owed, ans => contOk es [] owed ans             -- unsolicited "+": nobody is owed
+  | .cont :: es, c :: open_, owed, ans => contOk es open_ (owed ++ [c]) ans
+  | .resumed c :: es, open_, owed, ans => owed.contains c && contOk es open_ (owed.erase c) ans
+  | .answered c :: es, open_, owed, ans => contOk es (open_.filter (· ≠ c)) owed (c :: ans)
 
 /-- the first clause of the property that the run violates -/
 def violation (o : Obs) : Option String :=
@@ -50,7 +53,7 @@ def violation (o : Obs) : Option String :=
     | some (c, _) => some s!"command-never-completes@{c}"
     | none =>
       if o.closes.contains 9 then some "close-never-returns"
-      else if !contOk o.events [] [] then some "continuation-request-misrouted"
+      else if !contOk o.events [] [] [] then some "continuation-request-misrouted"
       else none
 
 def ok (o : Obs) : Bool := (violation o).isNone
